@@ -51,6 +51,17 @@ CLAIMED = {
     'C16': _cache('Clauses C16.*: a raising call leaves every observable unchanged and re-raises the same object after one evaluation; '
                   'safe decorators fall back to plain evaluation for unkeyable arguments.', '4 (C16)'),
     'C18': _cache('Clauses C18.*: key() is the storage key, lookup() returns the resident value or KeyError, both are pure; with ignore/tol variants.', '4 (C18)'),
+    'C12': ('round', 'model_checking',
+            'C12.*: calls whose arguments round to identical trees share a key (and the second is a hit), calls that round to '
+            'unequal trees never do, the function receives the caller\'s original arguments, tol=None is the identity, rounding '
+            'never makes a valid call fail; the standalone simple/shallow/deep decorators hand exactly the oracle\'s rounded tree '
+            'to the function. The oracle (RoundP.RoundTree) is exact half-to-even rounding of dyadic rationals on argument trees; '
+            'simple_round/deep_round/shallow_round are transcribed as layer I (RoundImpl) and TLC checks them against the oracle over '
+            'the catalogue; TLC emits the catalogue, every call is pushed through real caches (std/safe), keygen and the standalone '
+            'decorators, and TLC judges every recorded call against all earlier calls of its trace (RoundTrace).', '4 (C12)',
+            'trusted: TLC, harness/round_checks.py (tree <-> Python value mapping); floats are dyadic rationals so that a correctly '
+            'rounded round() equals exact half-to-even rounding; 19 argument shapes x two leaves; tolerances None,-1,0,1,2',
+            'TLA+ rounding oracle on trees + transcription of the rounders, exhaustive catalogue check by TLC, catalogue replay + trace validation'),
     'C19': ('valid', 'model_checking',
             'C19.*: isvalid is True exactly when the interpreter binds the call, validate returns None / raises TypeError accordingly, '
             'and neither ever runs the function. Python\'s binding (KeyP.PyBind) extended to bound methods, callable instances and '
